@@ -231,6 +231,11 @@ impl Machine {
                 pend.join(","),
                 trace.join(",")
             )
+        } else if n == 1 && irq.is_none() && !d.is_empty() {
+            // a single instruction that fails: what it has written all the same (C09 / C07: a failing access, a rejected
+            // opcode changes nothing)
+            let mem: Vec<String> = d.iter().map(|(a, v)| format!("{:x}:{:x}", a, v)).collect();
+            format!("{} wrote={}", outcome, mem.join(","))
         } else {
             outcome
         };
@@ -649,6 +654,7 @@ impl Mode for StepMode {
                     }
                     "C02" | "C03" => self.gen_value_sweeps(ctx, &forms, &mut rng, &mut idx_dummy(), emit),
                     "C04" => self.gen_bit_cube(ctx, &forms, &mut rng, emit),
+                    "C09" => self.gen_abs32(ctx, &mut rng, emit),
                     _ => {}
                 }
             }
@@ -1271,6 +1277,43 @@ impl StepMode {
     }
 
     /// registers that make memory operands mostly valid
+    /// C09: MOV.B/W/L through a 32-bit absolute address field at or above 2^24 whose low 24 bits name an existing location
+    fn gen_abs32(&self, ctx: &Ctx, rng: &mut Rng, emit: &mut dyn FnMut(String)) {
+        let n = if ctx.quick() { 600 } else { 20_000 };
+        for k in 0..n {
+            if !ctx.mine(k as u64 + 1) {
+                continue;
+            }
+            let low: u32 = match rng.below(6) {
+                0 => 0xffc100 + 2 * rng.below(0x400) as u32,
+                1 => 0x400100 + 2 * rng.below(0x8000) as u32,
+                2 => 2 * rng.below(0x7c) as u32,
+                3 => 0xfee010 + 2 * rng.below(0x70) as u32,
+                4 => 0xffff30 + 2 * rng.below(0x20) as u32,
+                _ => *rng.pick(&[0xffbf20u32, 0xffff1c, 0x400000, 0x5ffffc, 0x0, 0xfc]),
+            };
+            let anyb = rng.range(1, 255) as u32;
+            let top: u32 = *rng.pick(&[0x01u32, 0x01, 0x7f, 0x80, 0xff, 0x10, anyb]);
+            let r = rng.below(16) as u16;
+            let store = rng.chance(2, 3);
+            let mut c = CaseB::new();
+            c.er = rand_regs(rng);
+            c.ccr = rng.u8();
+            c.pc = if low >= 0xffc000 { 0x418000 + 2 * rng.below(0x100) as u32 } else { 0xffc800 + 2 * rng.below(0x100) as u32 };
+            let hi = ((top << 8) | (low >> 16)) as u16;
+            let lo = (low & 0xffff) as u16;
+            let ws: Vec<u16> = match rng.below(3) {
+                0 => vec![0x6a20 | if store { 0x80 } else { 0 } | r, hi, lo],
+                1 => vec![0x6b20 | if store { 0x80 } else { 0 } | r, hi, lo],
+                _ => vec![0x0100, 0x6b20 | if store { 0x80 } else { 0 } | (r & 7), hi, lo],
+            };
+            c.put_words(c.pc, &ws);
+            // known contents at the aliased location
+            c.put(low, &[0x5a, 0xa5, 0x3c, 0xc3]);
+            emit(c.line());
+        }
+    }
+
     fn addr_regs(rng: &mut Rng) -> [u32; 8] {
         let mut er = [0u32; 8];
         for e in er.iter_mut() {
@@ -1592,6 +1635,26 @@ pub fn diff_state(case: &str, imp: &str, other: &str, dc: &[&str], with_cost: bo
     None
 }
 
+/// the top byte of the 32-bit address field when the instruction at pc is MOV.B/W @aa:24 (6A2r / 6AAr / 6B2r / 6BAr) or
+/// MOV.L @aa:24 (0100 6B2r / 6BAr)
+fn abs32_top(case: &str) -> Option<u32> {
+    let pc = u32::from_str_radix(field(case, "pc")?, 16).ok()?;
+    let mem = case_mem(case);
+    let word = |a: u32| -> Option<u32> { Some((*mem.get(&a)? << 8) | *mem.get(&(a + 1))?) };
+    let mut a = pc;
+    let mut w = word(a)?;
+    if w == 0x0100 {
+        a += 2;
+        w = word(a)?;
+        if w & 0xff70 != 0x6b20 {
+            return None;
+        }
+    } else if !(w & 0xff70 == 0x6a20 || w & 0xff70 == 0x6b20) {
+        return None;
+    }
+    Some(word(a + 2)? >> 8)
+}
+
 fn clip_s(x: &str) -> String {
     x.chars().take(200).collect()
 }
@@ -1652,6 +1715,30 @@ pub fn judge_step(ctx: &Ctx, case: &str, imp: &str, drv: &str) -> (Verdict, Stri
         };
         let hk = fnv(&format!("{}{}", key, imp_class));
         return (v, key, Some(hk));
+    }
+    // C09, "anything at or above 2^24 makes reads and writes fail with an access error and changes nothing", through the
+    // absolute-address helpers: MOV.B/W/L with a 32-bit address field whose top byte is not zero must stop with an error and
+    // must not have stored anything (in particular not at the location with the same low 24 bits)
+    if prop == "C09" {
+        if let Some(top) = abs32_top(case) {
+            if top != 0 {
+                let why = if imp_class == "ok" {
+                    Some(format!("the access is at or above 2^24 and must fail, impl executed it: {}", clip_s(imp)))
+                } else if let Some(w) = field(imp, "wrote").filter(|w| !w.is_empty()) {
+                    Some(format!("the access at or above 2^24 fails but memory has changed: {}", clip_s(w)))
+                } else {
+                    None
+                };
+                let v = match why {
+                    Some(w) => Verdict::Oracle(w, None),
+                    None => match corr {
+                        Some(c) => Verdict::Corr(c),
+                        None => Verdict::Agree,
+                    },
+                };
+                return (v, "abs32".to_string(), Some(fnv(case)));
+            }
+        }
     }
     // a data access to an unmapped address must fail (C09), whatever the instruction: nothing else about the case is judged
     let unmapped_only = tags.contains(&"unmapped") && tags.iter().all(|t| *t == "unmapped" || allowed_tags(prop).contains(t));
